@@ -35,6 +35,7 @@ type Frame struct {
 	st  *State
 	cur *ssa.BasicBlock
 	dry bool
+	siteMode bool // resolving names for a site assertion in the middle of the current block
 	// constant overrides (case pruning)
 	constOverride map[ssa.Value]string
 	allowed       map[string][]string
